@@ -4,6 +4,7 @@
 #include "env.h"
 #include <sys/mman.h>
 #include <unistd.h>
+#include <time.h>
 
 using namespace env;
 
@@ -90,6 +91,14 @@ static void exec_op(Task* t, OpRec& rec, bool preempt) {
 #ifndef POLYSIM_LIB_ASSERTS
         E.norm_full_len = ((op.a >> 9) & 1) != 0;
 #endif
+        E.misalign = ((op.a >> 10) & 1) != 0;
+        E.lifo_reuse = ((op.a >> 11) & 1) != 0;
+        {   // the process environment is configuration too: the time zone must not matter
+            static const char* TZS[4] = {nullptr, "JST-9", "EST5EDT", "NZST-12NZDT"};
+            const char* tz = TZS[(op.a >> 12) & 3];
+            if (tz) setenv("TZ", tz, 1); else unsetenv("TZ");
+            tzset();
+        }
         break;
     case OP_INJECT: {
         size_t pg = (size_t)sysconf(_SC_PAGESIZE);
@@ -242,6 +251,7 @@ struct Checker {
     std::set<std::string> crypt_images;
     Stats* st;
     bool crypt_related = false;
+    bool have_pending = false; AbsSeed pending;      // the abstract seed a constructor's input denotes (kept if the library accepts it against the model's verdict)
     std::vector<Needle> needles;
 
     // Returns true if the caller should stop evaluating this operation. A mismatch in an aspect that the property
@@ -265,6 +275,7 @@ struct Checker {
         polyseed_data* p = (polyseed_data*)t->slots[rec.op.slot & 7];
         if (rec.op.kind == OP_ENABLE) mask = (unsigned)rec.op.a & 7;
         if (!p) { seeds.erase(key); return; }
+        if (is_ctor(rec.op.kind) && rec.status == ST_OK && have_pending && !seeds.count(key)) seeds[key] = pending;
         // If the model knows which abstract seed this object should be (the history determines it), it keeps that: later
         // operations are then judged against the seed the history really leads to. Only without a prediction is the
         // library's own view adopted.
@@ -367,6 +378,7 @@ struct Checker {
         const Op& op = rec.op;
         needles.clear();
         crypt_related = false;
+        have_pending = false;
         if (rec.skipped) return;
         auto key = std::make_pair(rec.task, op.slot & 7);
         auto it = seeds.find(key);
@@ -448,6 +460,7 @@ struct Checker {
             AbsSeed m; int exp = model::parse(in, m);
             if (exp == ST_OK || exp == ST_CHECKSUM) add_needles_seed(m);
             if (exp == ST_OK && is_crypt_image(m)) crypt_related = true;
+            if (exp == ST_OK) { have_pending = true; pending = m; }
             if (exp == ST_OK && !model::supported(m.features, mask)) exp = ST_UNSUPPORTED;
             if (!expect_status(exp)) return;
             if (rec.status != ST_OK) break;
@@ -468,7 +481,7 @@ struct Checker {
                 for (auto& pv : d.partial) add_needles_idx_n(pv.data(), pv.size());
                 if (d.have_idx) { add_needles_idx(d.idx); unsigned c2[16]; memcpy(c2, d.idx, sizeof c2); c2[1] ^= (unsigned)op.b & 2047; add_needles_idx(c2); }
                 int exp = d.status;
-                if (exp == ST_OK) { add_needles_seed(d.seed); if (is_crypt_image(d.seed)) crypt_related = true; }
+                if (exp == ST_OK) { add_needles_seed(d.seed); if (is_crypt_image(d.seed)) crypt_related = true; have_pending = true; pending = d.seed; }
                 if (exp == ST_OK && !model::supported(d.seed.features, mask)) exp = ST_UNSUPPORTED;
                 if (!expect_status(exp)) return;
                 if (rec.status != ST_OK) break;
@@ -793,7 +806,8 @@ static RunResult run_preempt(const Plan& p, const RunOpts& o) {
     // ---- concurrent phase
     std::vector<TaskScript> conc; build(conc);
     size_t nblocks_before = E.blocks.size();
-    E.shadow.clear(); E.mon_violation = Violation(); E.monitor = o.monitor && have_monitor && p.prop == "C20"; E.shared_stores = 0;
+    E.shadow.clear(); E.mon_violation = Violation(); E.monitor = have_monitor; E.shared_stores = 0;
+    E.report_ownership = p.prop == "C20"; E.report_races = p.prop == "C20" && !E.no_race_oracle;
     Rng srng(o.sched_seed ? o.sched_seed : 1);
     E.sched_rng = Rng(mix64(o.sched_seed, 77));
     bool generated = p.sched.empty() && o.sched_strategy >= 0;
@@ -873,8 +887,8 @@ static RunResult run_preempt(const Plan& p, const RunOpts& o) {
     // ---- serial reference: the same scripts, each alone, same binary, same library state
     std::vector<TaskScript> solo; build(solo);
     // block numbering restarts so that the transcripts are comparable
-    for (auto& b : E.blocks) { unpoison(b.p, b.size); free(b.p); }
-    E.blocks.clear(); memset(E.task_blk_seq, 0, sizeof E.task_blk_seq); (void)nblocks_before;
+    for (auto& b : E.blocks) if (b.base) { unpoison(b.p, b.size); free(b.base); }
+    E.blocks.clear(); E.last_freed = -1; memset(E.task_blk_seq, 0, sizeof E.task_blk_seq); (void)nblocks_before;
     // the concurrent transcripts were rendered with their own numbering; renumber by replaying is not needed because
     // block ids enter the transcripts per task (see below)
     for (int k = 0; k < nt; ++k) {
@@ -903,7 +917,7 @@ static RunResult run_preempt(const Plan& p, const RunOpts& o) {
 RunResult run_plan(const Plan& p, const RunOpts& o) {
     reset_run();
     cleanup_pages();
-    E.cur_gen = -1; E.cur_opt = 0; E.fill = 0; E.fill_seed = 0; E.kdf_mode = 0; E.monitor = false; E.norm_full_len = false;
+    E.cur_gen = -1; E.cur_opt = 0; E.fill = 0; E.fill_seed = 0; E.kdf_mode = 0; E.monitor = false; E.norm_full_len = false; E.misalign = false; E.lifo_reuse = false; E.no_race_oracle = getenv("POLYSIM_NO_R") != nullptr;
     E.stats.c.clear();
     for (int ti = 0; ti < ntasks; ++ti) { memset(tasks[ti].slots, 0, sizeof tasks[ti].slots); tasks[ti].locks_held = 0; tasks[ti].blocked = false; }
     RunResult r = (p.mode == "preempt") ? run_preempt(p, o) : run_ops(p, o);
